@@ -66,6 +66,17 @@ theorem prefixIndep_of_length_eq (a b : String) (hl : a.length = b.length) (hne 
   have hl' : a.toList.length = b.toList.length := by simp [String.length_toList, hl]
   exact String.toList_inj.mp (List.append_inj e' hl').1
 
+/-- two prefixes neither of which starts with the other never produce a common key (dotted module paths
+end in '.', so this is every pair of distinct modules neither of which is an ancestor of the other) -/
+theorem prefixIndep_of_not_prefix (a b : String) (h1 : ¬ a.toList <+: b.toList)
+    (h2 : ¬ b.toList <+: a.toList) : PrefixIndep a b := by
+  intro x y e
+  have e' := congrArg String.toList e
+  simp only [String.toList_append] at e'
+  rcases List.append_eq_append_iff.mp e' with ⟨c, hc, _⟩ | ⟨c, hc, _⟩
+  · exact h1 ⟨c, hc.symm⟩
+  · exact h2 ⟨c, hc.symm⟩
+
 /-- lookups under a module's prefix in the whole-model dict see only that module's entries -/
 theorem sdGet_modelSave (ms : List (String × QModuleSer))
     (hpre : ms.Pairwise fun a b => PrefixIndep a.1 b.1)
